@@ -183,6 +183,24 @@ pub fn generate(rng: &mut Rng, thorough: bool, out: &mut Out) {
         };
         let (q, r) = run_chain3(h);
         out.case(q, r);
+        // very short but non-zero incoming handles: the tangent direction is still defined and must be kept
+        let eps = [1e-4f64, 1e-5, 1e-7, 1e-9][k % 4];
+        let (u, v) = (Pt2::new(0.6 * eps, 0.8 * eps), Pt2::new(-0.8 * eps, 0.6 * eps));
+        let h = Hist2 {
+            first: (a, b, c - u, c, sg),
+            adds: vec![(1.5, d - v, d, sg), (2.0, b - u, b, sg), (0.75, c, d, sg)],
+            close: if k % 2 == 0 { Some((1.0, a - v, 0.5, sg)) } else { None },
+        };
+        let (q, r) = run_chain2(h);
+        out.case(q, r);
+        let (u3, v3) = (Pt3::new(0.6 * eps, 0.0, 0.8 * eps), Pt3::new(0.0, -0.8 * eps, 0.6 * eps));
+        let h = Hist3 {
+            first: (l(a), l(b), l(c) - u3, l(c), sg),
+            adds: vec![(1.5, l(d) - v3, l(d), sg), (2.0, l(b) - u3, l(b), sg), (0.75, l(c), l(d), sg)],
+            close: if k % 2 == 1 { Some((1.0, l(a) - v3, 0.5, sg)) } else { None },
+        };
+        let (q, r) = run_chain3(h);
+        out.case(q, r);
     }
     let n = if thorough { 20000 } else { 1500 };
     for i in 0..n {
